@@ -143,6 +143,8 @@ def run(ctx):
                 purity(ctx, d3, f, inplace)
 
     # ---------------- D3b: no value-returning function builds its result on the storage of an existing vector
+    d6 = ctx.rule('D6', 'keys written by item assignment are range-checked against the size', floor=2)
+    index_range(ctx, d6)
     d3b = ctx.rule('D3b', 'results are never built on an operand\'s storage (from_dict / returned dicts)', floor=60)
     allf = []
     for c in classes:
@@ -256,3 +258,45 @@ def purity(ctx, d3, f, inplace):
             bad = True
     if not bad:
         d3.ok(cons, ('writes only self, returns self' if inplace else 'writes no operand, result storage is fresh') + ' (%d paths)' % len(ps), f)
+
+
+def index_range(ctx, rule):
+    """"... with indices inside the array's size."  Item assignment stores the caller's index (an int, the elements of a list, the
+    positions of a mask, the range of a slice) as dictionary keys.  Unless the index is normalised (negative -> size + index) and
+    compared with the size, sv[-1] = x creates a second entry for the last position and sv[size + k] = x an entry outside the array."""
+    prog = ctx.prog
+    for cname in ('SparseVector', 'SparseLogicalVector'):
+        c = prog.cls(cname, SP)
+        f = c.methods.get('__setitem__')
+        if f is None:
+            raise AnalysisError('%s.__setitem__ not found' % cname)
+        ip = f.params[1]
+        # names derived from the index parameter
+        derived = {ip}
+        changed = True
+        while changed:
+            changed = False
+            for n in walk_no_nested(f.node):
+                tg = None
+                if isinstance(n, ast.Assign) and any(isinstance(x, ast.Name) and x.id in derived for x in ast.walk(n.value)):
+                    tg = n.targets
+                elif isinstance(n, ast.For) and any(isinstance(x, ast.Name) and x.id in derived for x in ast.walk(n.iter)):
+                    tg = [n.target]
+                for t in tg or []:
+                    for x in ast.walk(t):
+                        if isinstance(x, ast.Name) and isinstance(x.ctx, ast.Store) and x.id not in derived:
+                            derived.add(x.id)
+                            changed = True
+        keyed = [n for n in walk_no_nested(f.node)
+                 if (isinstance(n, ast.Subscript) and isinstance(n.ctx, ast.Store) and isinstance(n.slice, ast.Name) and n.slice.id in derived)
+                 or (isinstance(n, ast.Call) and isinstance(n.func, ast.Attribute) and n.func.attr in ('add',) and n.args and isinstance(n.args[0], ast.Name) and n.args[0].id in derived)]
+        if not keyed:
+            raise AnalysisError('%s.__setitem__: no store keyed by the index found' % cname)
+        checks = [n for n in walk_no_nested(f.node) if isinstance(n, ast.Compare)
+                  and any(isinstance(x, ast.Name) and x.id in derived for x in ast.walk(n))
+                  and any((isinstance(x, ast.Attribute) and x.attr == 'size') or (isinstance(x, ast.Constant) and x.value == 0 and isinstance(n.ops[0], (ast.Lt, ast.GtE))) for x in ast.walk(n))]
+        if checks:
+            rule.ok('%s.__setitem__' % cname, '%d stores keyed by the caller\'s index; the index is compared with the size / zero first' % len(keyed), f, checks[0])
+        else:
+            rule.fail('%s.__setitem__' % cname, 'index-not-range-checked', '%d stores use the caller\'s index as a storage key and nothing compares it with the size: a negative '
+                      'index creates a second entry for the position it denotes and an index >= size an entry outside the array' % len(keyed), f, keyed[0])
